@@ -164,9 +164,11 @@ type Font struct {
 	fvar fvar         // optional
 	hvar *tables.HVAR // optional
 	vvar *tables.VVAR // optional
-	avar tables.Avar
-	mvar mvar
-	gvar gvar
+	// optional, the mapping of VVAR for the vertical origins (which HVAR does not have)
+	vvarVOrg *tables.DeltaSetMapping
+	avar     tables.Avar
+	mvar     mvar
+	gvar     gvar
 
 	// Advanced layout tables.
 
@@ -298,6 +300,15 @@ func NewFont(ld *ot.Loader) (*Font, error) {
 		vvar, _, err := tables.ParseHVAR(raw)
 		if err == nil {
 			out.vvar = &vvar
+			// VVAR has one more mapping than HVAR : the one of the vertical origins
+			if len(raw) >= 24 {
+				offset := int(binary.BigEndian.Uint32(raw[20:]))
+				if offset != 0 && offset < len(raw) {
+					if vOrg, _, err := tables.ParseDeltaSetMapping(raw[offset:]); err == nil {
+						out.vvarVOrg = &vOrg
+					}
+				}
+			}
 		}
 	}
 
